@@ -161,6 +161,8 @@ type Action struct {
 	NoWait bool `json:"no_wait,omitempty"`
 	// cancelctx with NoWait: the same goroutine calls Start again right after the cancellation
 	ThenStart bool `json:"then_start,omitempty"`
+	// ... or calls Stop right after the cancellation (cancel(); election.Stop())
+	ThenStop bool `json:"then_stop,omitempty"`
 	// cancelctx (timeline actions only): the Start context ends because its deadline passes at At
 	// (context.DeadlineExceeded), not by an explicit cancel()
 	ByDeadline bool `json:"by_deadline,omitempty"`
